@@ -1,50 +1,81 @@
 /-!
 # Model of `Network.create_peer_connection` (C11)
 
-Transcribes, for the code **with** `fixes/C10-connect-cancel-or-closed.patch` and
-`fixes/C11-attempt-cleanup.patch` applied, network/network.py:
+Transcribes, for the code **with** `fixes/C10-connect-cancel-or-closed.patch`, `fixes/C11-attempt-cleanup.patch`,
+`fixes/C11-pierce-coincidence.patch`, `fixes/C11-listener-windows.patch`, `fixes/C11-disconnect-cancel-safe.patch`
+and `fixes/C11-race-cancel-orphan.patch` applied, network/network.py:
 
-* `create_peer_connection`, `_create_peer_connection_fallback`, `_create_peer_connection_race` (524-640);
-* `_get_peer_address` (642-664), `select_port` (504-522);
-* `_make_direct_connection` (825-875: address look-up, registry append, connect, PeerInit, finalise;
-  `except CancelledError: disconnect`);
-* `_make_indirect_connection` (877-935: both waiters registered *before* ConnectToPeer is sent; `asyncio.wait`
-  with timeout; `finally`: every waiter that is still pending is cancelled);
-* the `PeerPierceFirewall` arm of `on_peer_accepted` (known ticket: finalise + complete the waiter; unknown
-  ticket: disconnect) and the completion loop of `on_message_received` for `CannotConnect`.
+* `create_peer_connection`, `_create_peer_connection_fallback`, `_create_peer_connection_race`;
+* `_get_peer_address`, `select_port`;
+* `_make_direct_connection` (address look-up, registry append, `connect()`, PeerInit, finalise,
+  `PeerInitializedEvent`; `except CancelledError: disconnect` around all of it);
+* `_make_indirect_connection` (both waiters registered *before* ConnectToPeer is sent; `asyncio.wait` with
+  timeout; `finally`: every waiter that is still pending is cancelled);
+* `ListeningConnection.accept` + the `PeerPierceFirewall` arm of `on_peer_accepted` (CONNECTED notification,
+  registry append, known ticket: finalise, `PeerInitializedEvent`, complete the waiter *if it is still
+  pending*; otherwise disconnect) and the completion loop of `on_message_received` for `CannotConnect`;
+* `DataConnection.connect` / `disconnect` (network/connection.py) as far as they notify listeners:
+  CONNECTING before `open_connection`, CONNECTED after it, CLOSING before and CLOSED after the socket is
+  closed — `disconnect()` always runs to CLOSED, also when its task is cancelled inside a notification.
 
-One request.  `S` is its control state plus the three waiter tables and the two connection objects it can
-create, each as the code sets and clears them.  One `Op` is one completion the environment delivers
-(address reply, connect outcome, pierce, CannotConnect, the 60 s timer, cancellation of the request); `step`
-runs everything up to the next quiescent point.
+One request.  `S` is its control state plus the three waiter tables and the connection objects it can
+create, each as the code sets and clears them.
+
+**Granularity.**  Every notification of application listeners on the event bus (`ConnectionStateChangedEvent`,
+`PeerInitializedEvent`) is a suspension point: the listeners may take arbitrarily long, and every other
+completion — the other attempt finishing, CannotConnect, the 60 s timer, cancellation of the request — can be
+delivered meanwhile.  So a phase `n…` / `…Closing` / `…Closed` means "the task is inside the listeners of that
+notification", and `Op.note n` is "the listeners of notification `n` have returned" (when no listener
+suspends, the harness sends the `note` right away: the model then takes the same path in smaller steps).
+One `Op` is one completion the environment delivers; `step` runs everything up to the next suspension.
 -/
 namespace AioslskVerif.PeerConnect
 
 inductive Mode | fallback | race
   deriving DecidableEq, Repr
 
-/-- the direct attempt -/
+/-- the direct attempt (`_make_direct_connection`, in race mode its own task) -/
 inductive DPh
-  | addr        -- waiting for the GetPeerAddress reply
-  | opening     -- connection registered, parked in open_connection
-  | ok          -- connected, PeerInit sent, finalised
-  | failed      -- raised a NetworkError
+  | addr           -- waiting for the GetPeerAddress reply
+  | nConnecting    -- connection registered; `connect()`: listeners are being told CONNECTING
+  | opening        -- parked in open_connection
+  | nConnectedOk   -- socket open, listeners are being told CONNECTED; the PeerInit write after it will succeed
+  | nConnectedBad  -- the same; the PeerInit write after it will fail
+  | nInit          -- PeerInit written, finalised; listeners are being told PeerInitializedEvent(requested)
+  | fClosing       -- failed (refused / timeout / PeerInit write failed): `disconnect()`, listeners told CLOSING
+  | fClosed        -- … socket closed, unregistered, listeners told CLOSED; then the NetworkError is raised
+  | cClosing       -- cancelled: `disconnect()`, listeners told CLOSING
+  | cClosed        -- … told CLOSED; then CancelledError is re-raised
+  | ok             -- returned the initialised connection
+  | failed         -- raised a NetworkError
   | cancelled
   deriving DecidableEq, Repr
 
-/-- the indirect attempt -/
+/-- the indirect attempt (`_make_indirect_connection`) and the connection it was given -/
 inductive IPh
   | notStarted
   | waiting     -- ConnectToPeer sent, waiting for pierce / CannotConnect / timeout
-  | ok          -- a peer pierced with our ticket
+  | ok          -- a peer pierced with our ticket; returned that connection
   | failed
   | cancelled
+  | wClosing    -- race, the request was cancelled while the loser was cleaned up: the winner is disconnected,
+  | wClosed     --   listeners told CLOSING / CLOSED; then CancelledError is re-raised
+  deriving DecidableEq, Repr
+
+/-- an incoming connection the accept task (`ListeningConnection.accept` → `on_peer_accepted`) is handling;
+the peer has sent PeerPierceFirewall with the request's ticket -/
+inductive APh
+  | none
+  | nConnected  -- socket open, not yet registered; listeners are being told CONNECTED
+  | nInit       -- registered, ticket known and waiter pending: finalised, listeners told PeerInitializedEvent
+  | nClosing    -- nobody waits for it (any more): `disconnect()`, listeners told CLOSING
+  | nClosed     -- … CLOSED
   deriving DecidableEq, Repr
 
 /-- the PeerConnection object of the direct attempt -/
 inductive DConn
   | none        -- not created, or closed and unregistered
-  | connecting  -- registered, no socket yet
+  | connecting  -- registered, no open socket
   | «open»      -- registered, socket open
   deriving DecidableEq, Repr
 
@@ -54,10 +85,13 @@ inductive Res | pending | returnedD | returnedI | raised | cancelled
 structure S where
   mode : Mode
   srvFail : Bool        -- configuration: writing ConnectToPeer to the server fails
+  cr : Bool             -- `cancel()` has been called on the request
   d : DPh
   i : IPh
+  a : APh
   dc : DConn
-  ic : Bool             -- the pierced (incoming) connection: registered and open
+  ic : Bool             -- the pierced connection handed to the indirect attempt: registered and open
+  ps : Bool             -- PeerInit has reached the peer
   tw : Bool             -- our ticket is in `_expected_connection_futures`
   rw : Bool             -- a CannotConnect waiter for our ticket is in `_expected_response_futures`
   aw : Bool             -- a GetPeerAddress waiter is in `_expected_response_futures`
@@ -67,16 +101,29 @@ structure S where
 inductive AddrReply | valid | noAddr | noPort
   deriving DecidableEq, Repr
 
+/-- a notification whose listeners have all returned -/
+inductive Note
+  | dConnecting | dConnected | dInit | dClosing | dClosed      -- the outgoing connection of the direct attempt
+  | aConnected | aInit | aClosing | aClosed                    -- the connection the accept task is handling
+  | wClosing | wClosed                                         -- the pierced connection the request was given
+  deriving DecidableEq, Repr
+
 inductive Op
   | addrReply (r : AddrReply)
-  | connectOk (initOk : Bool)    -- open_connection returns; writing PeerInit succeeds / fails
+  | connectOk (initOk : Bool)    -- open_connection returns; writing PeerInit will succeed / fail
   | connectRefused
   | connectTimeout
   | pierce                       -- a peer connects to us and sends PeerPierceFirewall with the request's ticket
   | cannotConnect                -- the server sends CannotConnect with the request's ticket
   | indirectTimeout              -- PEER_INDIRECT_CONNECT_TIMEOUT expires
   | cancelRequest
+  | note (n : Note)
   deriving DecidableEq, Repr
+
+/-- the task of the direct attempt has not finished -/
+def dRunning : DPh → Bool
+  | .ok | .failed | .cancelled => false
+  | _ => true
 
 /-- `_make_indirect_connection` up to its first suspension: both waiters are registered, then ConnectToPeer
 is sent; a failing send raises through the `finally` that cancels both waiters -/
@@ -84,12 +131,19 @@ def startIndirect (s : S) : S :=
   let s := { s with tw := true, rw := true }
   if s.srvFail then { s with tw := false, rw := false, i := .failed } else { s with i := .waiting }
 
-/-- CancelledError delivered to the direct attempt where it is parked -/
+/-- CancelledError delivered to the task of the direct attempt, wherever it is suspended.
+Inside a notification the listener is interrupted.  Before the connection is closing:
+`except CancelledError: disconnect` (of `connect()` for `opening`, of `_make_direct_connection` otherwise) →
+CLOSING notification.  Inside the CLOSING notification of a `disconnect()`: its `finally` closes the socket
+and goes on to CLOSED (unregistered) → CLOSED notification.  Inside the CLOSED notification: the connection is
+closed already, CancelledError is re-raised (the outer `disconnect` returns at once). -/
 def cancelDirect (s : S) : S :=
   match s.d with
   | .addr => { s with aw := false, d := .cancelled }      -- the awaited ExpectedResponse is cancelled and unlisted
-  | .opening => { s with dc := .none, d := .cancelled }   -- connect(): except CancelledError → disconnect → unregistered
-  | _ => s
+  | .nConnecting | .opening | .nConnectedOk | .nConnectedBad | .nInit => { s with d := .cClosing }
+  | .fClosing | .cClosing => { s with dc := .none, d := .cClosed }
+  | .fClosed | .cClosed => { s with d := .cancelled }
+  | .ok | .failed | .cancelled => s
 
 /-- CancelledError delivered to the indirect attempt (parked in `asyncio.wait`): the `finally` cancels both waiters -/
 def cancelIndirect (s : S) : S :=
@@ -97,23 +151,33 @@ def cancelIndirect (s : S) : S :=
   | .waiting => { s with tw := false, rw := false, i := .cancelled }
   | _ => s
 
-/-- the direct attempt raised a NetworkError -/
-def directFailed (s : S) : S :=
-  let s := { s with d := .failed }
+/-- race mode: `asyncio.gather` over the cancelled attempt(s) returns once their tasks have finished — also when
+the gather itself was cancelled (it then raises only after its children are done).  A winner the request holds
+is returned, or — if the request was cancelled meanwhile — disconnected; otherwise CancelledError is re-raised. -/
+def gathered (s : S) : S :=
+  if dRunning s.d then s
+  else if s.i = .ok then
+    if s.cr then { s with i := .wClosing } else { s with res := .returnedI }
+  else if s.cr then { s with res := .cancelled }
+  else s
+
+/-- the task of the direct attempt has just finished (`d` is `ok`, `failed` or `cancelled`) -/
+def directDone (s : S) : S :=
   match s.mode with
   | .fallback =>
-    let s := startIndirect s
-    if s.i = .failed then { s with res := .raised } else s
-  | .race => if s.i = .failed then { s with res := .raised } else s
+    match s.d with
+    | .ok => { s with res := .returnedD }
+    | .failed =>
+      let s := startIndirect s
+      if s.i = .failed then { s with res := .raised } else s
+    | _ => { s with res := .cancelled }
+  | .race =>
+    match s.d with
+    | .ok => { cancelIndirect s with res := .returnedD }        -- the loser (parked in `asyncio.wait`) ends at once
+    | .failed => if s.i = .failed then { s with res := .raised } else s
+    | _ => gathered s
 
-/-- the direct attempt returned an initialised connection -/
-def directOk (s : S) : S :=
-  let s := { s with d := .ok, dc := .open }
-  match s.mode with
-  | .fallback => { s with res := .returnedD }
-  | .race => { cancelIndirect s with res := .returnedD }      -- loser cancelled and gathered
-
-/-- the indirect attempt raised (its waiters are already cleared) -/
+/-- the indirect attempt has just finished without a connection (its waiters are already cleared) -/
 def indirectFailed (s : S) : S :=
   match s.mode with
   | .fallback => { s with res := .raised }
@@ -123,7 +187,45 @@ def indirectFailed (s : S) : S :=
 def indirectOk (s : S) : S :=
   match s.mode with
   | .fallback => { s with res := .returnedI }
-  | .race => { cancelDirect s with res := .returnedI }
+  | .race => gathered (cancelDirect s)                          -- the loser is cancelled and gathered
+
+/-- `disconnect()` of the direct connection has reached CLOSED and its listeners have returned -/
+def directClosed (s : S) : S :=
+  match s.d with
+  | .fClosed => directDone { s with d := .failed }
+  | .cClosed => directDone { s with d := .cancelled }
+  | _ => s
+
+def note (s : S) : Note → Option S
+  | .dConnecting => if s.d = .nConnecting then some { s with d := .opening } else none
+  | .dConnected =>
+    match s.d with
+    | .nConnectedOk => some { s with ps := true, d := .nInit }
+    -- the PeerInit write fails (the socket is reset): `_send` disconnects, then raises ConnectionWriteError
+    | .nConnectedBad => some { s with dc := .connecting, d := .fClosing }
+    | _ => none
+  | .dInit => if s.d = .nInit then some (directDone { s with d := .ok }) else none
+  | .dClosing =>
+    match s.d with
+    | .fClosing => some { s with dc := .none, d := .fClosed }
+    | .cClosing => some { s with dc := .none, d := .cClosed }
+    | _ => none
+  | .dClosed => if s.d = .fClosed ∨ s.d = .cClosed then some (directClosed s) else none
+  | .aConnected =>
+    -- registered; the pierce message is read: known ticket with a pending waiter → finalise and announce;
+    -- otherwise (unknown ticket, waiter done) → disconnect
+    if s.a = .nConnected then some { s with a := if s.tw then .nInit else .nClosing } else none
+  | .aInit =>
+    if s.a ≠ .nInit then none
+    else if s.tw then
+      -- the waiter is still pending: completed (and unlisted); `_make_indirect_connection` wakes, its `finally`
+      -- cancels the CannotConnect waiter, returns the connection
+      some (indirectOk { s with a := .none, ic := true, tw := false, rw := false, i := .ok })
+    else some { s with a := .nClosing }                        -- the request ended meanwhile: disconnect
+  | .aClosing => if s.a = .nClosing then some { s with a := .nClosed } else none
+  | .aClosed => if s.a = .nClosed then some { s with a := .none } else none
+  | .wClosing => if s.i = .wClosing then some { s with ic := false, i := .wClosed } else none
+  | .wClosed => if s.i = .wClosed then some { s with i := .cancelled, res := .cancelled } else none
 
 def step (s : S) : Op → Option S
   | .addrReply r =>
@@ -131,34 +233,43 @@ def step (s : S) : Op → Option S
     else
       let s := { s with aw := false }
       match r with
-      | .valid => some { s with d := .opening, dc := .connecting }
-      | _ => some (directFailed s)                         -- PeerConnectionError: no address / no valid ports
-  | .connectOk true => if s.d ≠ .opening then none else some (directOk s)
-  | .connectOk false =>
-    -- the PeerInit write fails: `_send` disconnects (closed, unregistered), ConnectionWriteError
-    if s.d ≠ .opening then none else some (directFailed { s with dc := .none })
+      | .valid => some { s with d := .nConnecting, dc := .connecting }
+      | _ => some (directDone { s with d := .failed })     -- PeerConnectionError: no address / no valid ports
+  | .connectOk true => if s.d ≠ .opening then none else some { s with dc := .open, d := .nConnectedOk }
+  | .connectOk false => if s.d ≠ .opening then none else some { s with dc := .open, d := .nConnectedBad }
   | .connectRefused | .connectTimeout =>
-    if s.d ≠ .opening then none else some (directFailed { s with dc := .none })
+    -- `connect()`: `except Exception: disconnect(CONNECT_FAILED)`, there is no socket
+    if s.d ≠ .opening then none else some { s with d := .fClosing }
   | .pierce =>
-    if s.tw then
-      -- accepted, registered, finalised, waiter completed (and unlisted); `_make_indirect_connection` wakes,
-      -- its `finally` cancels the CannotConnect waiter, returns the connection
-      some (indirectOk { s with ic := true, tw := false, rw := false, i := .ok })
-    else some s                                            -- unknown ticket: the accepted connection is closed again
+    -- one incoming connection is handled at a time in this model
+    if s.a ≠ .none then none else some { s with a := .nConnected }
   | .cannotConnect =>
     if s.rw then some (indirectFailed { s with rw := false, tw := false, i := .failed }) else some s
   | .indirectTimeout =>
     if s.i ≠ .waiting then none
     else some (indirectFailed { s with rw := false, tw := false, i := .failed })
   | .cancelRequest =>
-    if s.res ≠ .pending then none
-    else some { cancelIndirect (cancelDirect s) with res := .cancelled }
+    if s.res ≠ .pending ∨ s.cr then none
+    else
+      let s := { s with cr := true }
+      match s.mode with
+      | .fallback =>
+        -- one task: it is inside the direct attempt, or (after that failed) inside the indirect one
+        if dRunning s.d then
+          let s := cancelDirect s
+          if s.d = .cancelled then { s with res := .cancelled } else s
+        else some { cancelIndirect s with res := .cancelled }
+      | .race =>
+        -- parked in `asyncio.wait` (no winner yet): both attempts are cancelled and gathered;
+        -- parked in the `gather` for the loser: the gather passes the cancellation on to the loser
+        some (gathered (cancelIndirect (cancelDirect s)))
+  | .note n => note s n
 
-/-- `create_peer_connection` up to its first quiescent point; `lookup`: ip/port were not given -/
+/-- `create_peer_connection` up to its first suspension; `lookup`: ip/port were not given -/
 def init (mode : Mode) (lookup srvFail : Bool) : S :=
-  let s : S := { mode := mode, srvFail := srvFail, d := if lookup then .addr else .opening, i := .notStarted,
-                 dc := if lookup then .none else .connecting, ic := false, tw := false, rw := false,
-                 aw := lookup, res := .pending }
+  let s : S := { mode := mode, srvFail := srvFail, cr := false, d := if lookup then .addr else .nConnecting,
+                 i := .notStarted, a := .none, dc := if lookup then .none else .connecting, ic := false, ps := false,
+                 tw := false, rw := false, aw := lookup, res := .pending }
   match mode with
   | .fallback => s
   | .race => startIndirect s        -- the indirect task starts at once; if it fails the race goes on with direct
